@@ -84,7 +84,7 @@ func c05Ops(spec c05PoolSpec) []c05Op {
 	}
 	// coin LISTS that the message's stateless validation admits although they are not a valid coin set
 	// (validation looks at each coin alone): one denom twice, the pair in reverse order, a triple
-	for _, a := range []string{"asset0_twice", "asset1_twice", "reversed_pair", "pair_plus_asset0"} {
+	for _, a := range []string{"asset0_twice", "asset1_twice", "reversed_pair", "pair_plus_asset0", "asset0_x_then_2x", "asset0_2x_then_x", "asset1_x_then_2x", "asset1_2x_then_x"} {
 		ops = append(ops, c05Op{Name: "join_list(" + a + ")", Kind: "join_list", Arg: a})
 	}
 	for _, a := range []string{"1", "1e6", "1e18", "half_mine", "all_mine", "all_mine+1"} {
@@ -333,6 +333,14 @@ func (r *c05Run) apply(ctx sdk.Context, s *c05State, op c05Op, path []string) {
 			list = sdk.Coins{c0, c0}
 		case "asset1_twice":
 			list = sdk.Coins{c1, c1}
+		case "asset0_x_then_2x":
+			list = sdk.Coins{c0, sdk.NewCoin(c0.Denom, c0.Amount.MulRaw(2))}
+		case "asset0_2x_then_x":
+			list = sdk.Coins{sdk.NewCoin(c0.Denom, c0.Amount.MulRaw(2)), c0}
+		case "asset1_x_then_2x":
+			list = sdk.Coins{c1, sdk.NewCoin(c1.Denom, c1.Amount.MulRaw(2))}
+		case "asset1_2x_then_x":
+			list = sdk.Coins{sdk.NewCoin(c1.Denom, c1.Amount.MulRaw(2)), c1}
 		case "reversed_pair":
 			list = sdk.Coins{c1, c0}
 			if pre.denoms[0] > pre.denoms[1] {
